@@ -40,6 +40,11 @@ CHECKS = {
             "patterns x rows, through all five text compilers, and on every rule line of every shipped rule file (rows synthesised from the line "
             "plus near-miss mutations); match result and extracted key must equal the reference semantics. Held = agreed on all observed pairs.",
             "Trusted: vf/ref/rulelang.py (R1) and vf/ref/deploy.py (R7). Shipped-line regex fragments are instantiated by an sre_parse sampler; unsampled lines are counted.", "4/C07"),
+    "C13": ("law monitors with an independent RFC 6901 glob resolver on real apply_json_fragment / make_patch+apply_patch / apply_acl_filters / fragment chaining",
+            "Documents, fragments and pattern lists are drawn from one random schema (keys containing '/', '~', '|', '*'); the run observes the real functions and checks, with its "
+            "own pointer resolver, that selected parts equal the fragment, everything else equals the old document, merging is idempotent, the generated JSON patch reproduces the "
+            "target under strict JSON equality, filters return sub-documents containing every selected part, and several generators over one file equal sequential merging.",
+            "Trusted: the resolver in vf/props/c13.py. Inputs on which the third-party jsonpatch library itself does not round-trip are counted and skipped. Two known findings (array elements selected by a pattern).", "4/C13"),
     "C16": ("relational (differential) monitor between two real front ends on the same inputs, including the CLI file workers on files in a scratch directory",
             "Every fixture pair, per-vendor cross products and random recombinations of fixture trees, for stub hardware and the hardware families the templates branch on, are run "
             "through _read_old_new_diff_patch / file_patch_worker / file_diff_worker and through _diff_and_patch; ordered command paths and diff entries must be equal.",
